@@ -474,7 +474,7 @@ def _apply_fn(src, w, op, fn, modname):
         w.insert(toks[b1].end, ' }', f'{label}#closure{kidx}', 'W5')
     # a closure of the real code that carries no contract tells the verifier nothing about its result: a failed obligation in
     # this function can then not be told from a lost proof (recorded like a lost hint: no violation without a failing input)
-    n_cls = len(src.closures(fn)) - len(op.get('w10', []))
+    n_cls = len(src.closures(fn)) - len(op.get('w10', [])) - sum(1 for r in op.get('w8', []) if r['kind'] == 'filter')
     n_spec = len(op.get('closures', {})) - sum(1 for h in getattr(w, 'lost_hints', []) if h.startswith(f'{label}: closure #'))
     if op.get('attrs') and any('external' in a for a in op['attrs']):
         n_cls = 0
@@ -589,6 +589,16 @@ def _apply_fn(src, w, op, fn, modname):
             nm = (r8['iter_name'] + ': ') if r8.get('iter_name') else ''
             head = f'for (_w8k, {x_}) in {nm}{e_}.iter()\n{inv}\n{{'
             tail = ''
+        elif r8['kind'] == 'filter':
+            # `for x in E.iter().filter(|p| PRED) {B}` => `for x in E.iter() { if { let p = &x; PRED } {B} }`: vstd specifies
+            # Filter only as "elements of the source that satisfy PRED" (neither order nor completeness)
+            m = re.match(r'^for (\w+) in (.+?) ?\.iter\(\) ?\.filter\(\|(\w+)\| (.+)\) \{$', header)
+            if not m or '|' in m.group(4) or re.search(r'\b(return|break|continue)\b|\?', m.group(4)):
+                raise AnchorLost(f'{src.path}: W8 loop header `{header}` is not an iter().filter(|p| PRED) loop')
+            x_, e_, p_, pred = m.groups()
+            nm = (r8['iter_name'] + ': ') if r8.get('iter_name') else ''
+            head = f'for {x_} in {nm}{e_}.iter()\n{inv}\n{{ if {{ let {p_} = &{x_}; {pred} }} {{'
+            tail = ' } '
         else:
             raise ValueError(r8['kind'])
         body_txt = text[toks[bi].end:toks[toks[bi].match].start]
